@@ -84,7 +84,9 @@ def extract(config="default", repo=None, keep=False):
     feats = CONFIGS[config]
     os.makedirs(BUILD, exist_ok=True)
     # one target dir per (repo path, config): scratch copies do not disturb /repo's cache
-    tag = config if os.path.abspath(repo) == "/repo" else config + "-" + str(abs(hash(os.path.abspath(repo))) % 100000)
+    # (a stable digest: Python's str hash is salted per process and would create a new 50 MB target directory for every run)
+    import hashlib
+    tag = config if os.path.abspath(repo) == "/repo" else config + "-x" + hashlib.md5(os.path.abspath(repo).encode()).hexdigest()[:8]
     target = os.path.join(BUILD, "target-" + tag)
     nonce = uuid.uuid4().hex
     out = os.path.join(BUILD, "facts-%s-%s.jsonl" % (tag, nonce[:8]))
